@@ -63,6 +63,8 @@ int main(void) {
         }
       } else if (!strcmp(op, "formlog") && ops_ntok == 2) {
         fw_hook_form_log = atoi(ops_tok[1]);
+      } else if (!strcmp(op, "reload")) { /* what a restart loads: the configuration is read from flash again */
+        supla_esp_cfg_init();
       } else if (!strcmp(op, "disc")) {
         supla_esp_discon_callback(&conn);
       } else if (!strcmp(op, "show")) {
